@@ -11,6 +11,7 @@ import Driver.Plug
 import Driver.Sys
 import Driver.Serve
 import Driver.L2Frame
+import Driver.Bits
 import Std.Data.HashMap
 open Drv
 
@@ -139,4 +140,5 @@ def main (args : List String) : IO UInt32 := do
   | ["sys"] => run ⟨({} : SysE.St), SysE.step⟩; return 0
   | ["serve"] => run ⟨(), fun _ op res => ((), Serve.step op res)⟩; return 0
   | ["l2frame"] => run ⟨(), fun _ op res => ((), L2Frame.step op res)⟩; return 0
+  | ["bits"] => run ⟨({} : BitsE.St), BitsE.step⟩; return 0
   | _ => IO.eprintln "usage: drv <engine> < trace"; return 2
